@@ -148,6 +148,7 @@ PROPS["C20"] = {
 }
 
 PROPS["C01"] = {
+    "extras": ["iavlrace"],
     "lean_modules": ["Posmint.Props.C01"], "namespaces": ["Posmint.Props.C01"],
     "required_theorems": ["Posmint.Props.C01." + t for t in ("readonly_step", "interleaved_traffic_state", "interleaved_traffic_outputs",
                           "step_sameButCheckHeader", "restart_irrelevant", "restart_forgotten_at_commit", "canonMap_perm", "appHash_perm",
